@@ -4,14 +4,15 @@
 # directory, so /repo stays untouched (safe while other runs build from /repo).
 cd "$(dirname "$0")"
 patch="$1"; tier="$2"; shift 2
-WT=/tmp/seed/me
+WT=${WT:-/tmp/seed/me}
+SB=${SB:-/root/scratch/me}
 git -C $WT checkout -q --detach "$(git -C /repo rev-parse HEAD)" || exit 2
 git -C $WT status --short | grep -v '^??' && { echo "worktree not clean"; exit 2; }
 git -C $WT apply "$patch" || { echo "patch does not apply"; exit 2; }
-mkdir -p /root/scratch/me/out /root/scratch/me/build
+mkdir -p $SB/out $SB/build
 for c in "$@"; do
   s=$(date +%s)
-  out=$(VERIF_CMD=${VERIF_CMD:-./cmd/vcheck} VERIF_REPO=$WT VERIF_BUILD=/root/scratch/me/build VERIF_ROOT=/root/scratch/me/out ./run.sh $c $tier 2>&1); rc=$?
+  out=$(VERIF_CMD=${VERIF_CMD:-./cmd/vcheck} VERIF_REPO=$WT VERIF_BUILD=$SB/build VERIF_ROOT=$SB/out ./run.sh $c $tier 2>&1); rc=$?
   e=$(date +%s)
   echo "  $c rc=$rc $((e-s))s | $(echo "$out" | grep -E 'key=' | head -4 | tr '\n' ' ' | cut -c1-400) | $(echo "$out" | tail -1 | cut -c1-100)"
 done
